@@ -122,7 +122,8 @@ func c14DLEQ(level int) *cashu.DLEQProof {
 	case 2:
 		return &cashu.DLEQProof{E: c14Hex32("e2"), S: c14Hex32("s2"), R: c14Hex32("r2")}
 	case 3:
-		return &cashu.DLEQProof{E: c14Hex32("e3"), S: c14Hex32("s3"), R: c14Hex32("r3")}
+		// scalars that begin with zero bytes (about one scalar in 256 does): every hex digit must survive
+		return &cashu.DLEQProof{E: "00" + c14Hex32("e3")[2:], S: "0000" + c14Hex32("s3")[4:], R: "00000000" + c14Hex32("r3")[8:]}
 	}
 	return nil
 }
@@ -929,6 +930,13 @@ func c14CBORPayloads() [][]byte {
 		one(pv("w", 1)), one(pv("w", nil)), one(pv("w", `{"signatures":[]}`)), one(pv("w", []byte("w"))),
 		one(pv("d", nil)), one(pv("d", c14M{})), one(pv("d", c14M{"e": []byte{}, "s": []byte{}, "r": []byte{}})), one(pv("d", c14M{"e": "x"})),
 		one(pv("d", c14M{"e": nil, "s": nil, "r": nil})), one(pv("d", 1)), one(pv("d", []any{})), one(pv("d", c14M{"e": []byte{1}, "s": []byte{2}})),
+		// DLEQ byte strings of every length class around 32 (shorter, exactly, longer), each member in turn
+		one(pv("d", c14M{"e": bytes.Repeat([]byte{7}, 31), "s": bytes.Repeat([]byte{7}, 32), "r": bytes.Repeat([]byte{7}, 32)})),
+		one(pv("d", c14M{"e": bytes.Repeat([]byte{7}, 33), "s": bytes.Repeat([]byte{7}, 32), "r": bytes.Repeat([]byte{7}, 32)})),
+		one(pv("d", c14M{"e": bytes.Repeat([]byte{7}, 32), "s": bytes.Repeat([]byte{7}, 33), "r": bytes.Repeat([]byte{7}, 32)})),
+		one(pv("d", c14M{"e": bytes.Repeat([]byte{7}, 32), "s": bytes.Repeat([]byte{7}, 32), "r": bytes.Repeat([]byte{7}, 33)})),
+		one(pv("d", c14M{"e": bytes.Repeat([]byte{7}, 40), "s": bytes.Repeat([]byte{7}, 64), "r": bytes.Repeat([]byte{7}, 65)})),
+		one(pv("d", c14M{"e": bytes.Repeat([]byte{7}, 1000), "s": []byte{}, "r": bytes.Repeat([]byte{0}, 32)})),
 		[]any{c14M{"i": id1, "p": []any{pv()}}, c14M{"i": id2, "p": []any{pv("a", uint64(8))}}},
 		[]any{c14M{"i": id1, "p": []any{pv()}}, c14M{"i": id1, "p": []any{pv("a", uint64(8))}}},
 		[]any{c14M{"i": id1, "p": []any{}}, c14M{"i": id2, "p": []any{pv()}}},
